@@ -373,8 +373,8 @@ def _fn_owner(cad, b):
 
 
 def private_region(cad, root, within_type=None):
-    """root + private methods that are only called (transitively) from the region: helpers of `root`."""
-    region = {root.path}
+    """root(s) + private methods that are only called (transitively) from the region: helpers of `root`."""
+    region = set(r.path for r in root) if isinstance(root, (list, tuple, set)) else {root.path}
     changed = True
     while changed:
         changed = False
